@@ -103,11 +103,39 @@ func TypeIsObject(d Datum) (bool, string) {
 // Used to convert nodesets as well as strings.  Returns NaN in cases of
 // error.
 func numberFromString(numStr string) float64 {
-	num, err := strconv.ParseFloat(strings.TrimSpace(numStr), 0)
-	if err != nil {
+	numStr = strings.Trim(numStr, " \t\r\n")
+	if !isXpathNumber(numStr) {
+		return math.NaN()
+	}
+	num, err := strconv.ParseFloat(numStr, 64)
+	if err != nil && !math.IsInf(num, 0) {
 		return math.NaN()
 	}
 	return num
+}
+
+// isXpathNumber reports whether s is an optional minus sign followed by
+// an XPath Number: Digits ('.' Digits?)? | '.' Digits.  Anything else that
+// strconv would accept (exponents, a leading '+', "inf", "nan", hex floats)
+// is not a number in XPath 1.0 (section 4.4).  The one extension kept is
+// the spelling "Infinity", which string() produces for infinite numbers.
+func isXpathNumber(s string) bool {
+	s = strings.TrimPrefix(s, "-")
+	if s == "Infinity" {
+		return true
+	}
+	digits, dots := 0, 0
+	for _, c := range s {
+		switch {
+		case c >= '0' && c <= '9':
+			digits++
+		case c == '.':
+			dots++
+		default:
+			return false
+		}
+	}
+	return digits > 0 && dots <= 1
 }
 
 // Purely for testing - allows us to exercise error handling code.
